@@ -218,6 +218,7 @@ def _run_ui(trace, prop, seed=None):
         sub.compare()
     if ui.store.overshoot:
         res.probes["batch overshoot: step() calls after done"] += ui.store.overshoot
+    sub.final_compare()
     sub.close()
     res.sim["simulated_ms"] += int(ui.loop.now)
     res.sim["events"] += len(events)
@@ -517,7 +518,11 @@ def _run_api(trace, prop):
                 continue  # run() in the middle of an instruction: no property speaks about it
             # only issue run() when a probe copy terminates within the cap: otherwise the wall
             # watchdog would decide, and a hang of run() on a terminating program is a violation
-            probe = copy.deepcopy(sub.s13 if sub.s13 is not None else sub.sut)
+            try:
+                probe = copy.deepcopy(sub.s13 if sub.s13 is not None else sub.sut)
+            except Exception:  # noqa: BLE001
+                res.probes["run() skipped: the simulation cannot be deep-copied for the termination probe"] += 1
+                continue
             k = 0
             try:
                 while not probe.is_done() and k < STEP_CAP:
@@ -562,6 +567,7 @@ def _run_api(trace, prop):
             sub.compare()
     if not sub.dead:
         sub.compare()
+    sub.final_compare()
     sub.close()
     res.sim["calls"] += len(trace["ops"])
     res.sim["steps"] += steps
